@@ -327,8 +327,25 @@ func c14e2eMain(triggered bool) {
 					}
 					reqs()
 					ops = append(ops, fmt.Sprintf("u%d", m))
-				case r.chance(1, 3):
-					ops = append(ops, fmt.Sprintf("k%d", r.intn(nodes)))
+				case r.chance(1, 3) || (triggered && len(replicas) > 0 && r.chance(1, 2)):
+					// connections are lost: preferably those of a replica, followed by reads of its master's keys
+					x := r.intn(nodes)
+					if len(replicas) > 0 && r.chance(2, 3) {
+						ri := r.intn(len(replicas))
+						x = replicas[ri]
+						ops = append(ops, fmt.Sprintf("k%d", x))
+						for y := 0; y < 60; y++ {
+							k := []byte("k" + strconv.Itoa(y))
+							sl := simSlot(k)
+							for _, rg := range ranges {
+								if rg[0] <= sl && sl <= rg[1] && rg[2] == repOf[ri] && r.chance(1, 3) {
+									ops = append(ops, "g"+hex.EncodeToString(k))
+								}
+							}
+						}
+					} else {
+						ops = append(ops, fmt.Sprintf("k%d", x))
+					}
 				case !triggered && r.chance(1, 3):
 					ops = append(ops, "L")
 				default:
